@@ -49,10 +49,11 @@ Variables (r : nat) (x y : list nat) (v : list ext) (d : list ext) (pred ready :
 
 Record DistInvE : Prop := mkDistE
   { e1 : forall j, In j ready -> dz d j <= mu;
-    e2 : forall j, (j < n)%nat -> finp v j -> ~ In j ready -> mu <= dz d j;
-    e3 : forall j c, In (j, Fin c) (row rows r) -> finp v j -> dz d j <= c - vz v j;
+    (* d may still be +inf on columns never reached (reference variant): the facts speak about finite d *)
+    e2 : forall j, (j < n)%nat -> finp v j -> ~ In j ready -> (exists z, gete d j = Fin z) -> mu <= dz d j;
+    e3 : forall j c, In (j, Fin c) (row rows r) -> finp v j -> (exists z, gete d j = Fin z) /\ dz d j <= c - vz v j;
     e4 : forall jh j c ch, In jh ready -> In (j, Fin c) (row rows (getn y jh n)) -> In (jh, Fin ch) (row rows (getn y jh n)) ->
-           finp v j -> dz d jh = mu \/ dz d j <= dz d jh + (c - vz v j) - (ch - vz v jh);
+           finp v j -> dz d jh = mu \/ ((exists z, gete d j = Fin z) /\ dz d j <= dz d jh + (c - vz v j) - (ch - vz v jh));
     e5 : forall j, In j ready \/ j = j1 ->
            (getn pred j n = r /\ exists c, In (j, Fin c) (row rows r) /\ dz d j = c - vz v j) \/
            (exists jh c ch, In jh ready /\ getn pred j n = getn y jh n /\
@@ -93,19 +94,19 @@ Proof.
   assert (Tree : forall jh ch j' c', In jh ready -> In (jh, Fin ch) (row rows (getn y jh n)) ->
             In (j', Fin c') (row rows (getn y jh n)) -> finp v j' -> (ch - vz v jh) - dz d jh + mu <= c' - vz v' j').
   { intros jh ch j' c' Hjh Hch Hc' Fj'. destruct (Rfin _ _ _ Hc') as [Hj' _].
-    destruct (H4 jh j' c' ch Hjh Hc' Hch Fj') as [Emu|H4'].
+    destruct (H4 jh j' c' ch Hjh Hc' Hch Fj') as [Emu|[Fd' H4']].
     - destruct (HR jh Hjh) as [Hjhn [Fjh [_ Ny]]].
       destruct (SL jh _ Hjhn eq_refl Ny) as [_ [_ [c0 [Hc0 [Hmin _]]]]].
       assert (c0 = ch) by (assert (Fin c0 = Fin ch) by (eapply (row_cost_unique rows Rnodup); eauto); congruence). subst c0.
       specialize (Hmin j' c' Hc' Fjh Fj'). pose proof (Up j' c'). lia.
     - destruct (in_dec Nat.eq_dec j' ready) as [Hin|Hnin].
       + rewrite (proj1 (RC j' c') Hin). lia.
-      + rewrite (proj2 (RC j' c') Hnin). specialize (H2 j' Hj' Fj' Hnin). lia. }
+      + rewrite (proj2 (RC j' c') Hnin). specialize (H2 j' Hj' Fj' Hnin Fd'). lia. }
   assert (Root : forall j' c', In (j', Fin c') (row rows r) -> finp v j' -> mu <= c' - vz v' j').
-  { intros j' c' Hc' Fj'. destruct (Rfin _ _ _ Hc') as [Hj' _]. specialize (H3 j' c' Hc' Fj').
+  { intros j' c' Hc' Fj'. destruct (Rfin _ _ _ Hc') as [Hj' _]. destruct (H3 j' c' Hc' Fj') as [Fd' H3'].
     destruct (in_dec Nat.eq_dec j' ready) as [Hin|Hnin].
     - rewrite (proj1 (RC j' c') Hin). lia.
-    - rewrite (proj2 (RC j' c') Hnin). specialize (H2 j' Hj' Fj' Hnin). lia. }
+    - rewrite (proj2 (RC j' c') Hnin). specialize (H2 j' Hj' Fj' Hnin Fd'). lia. }
   intros j i Hj Ey Ne. destruct (PI' j i Hj ltac:(discriminate) Ey Ne) as [Hi Hx']. split; auto. split; auto.
   destruct (Src j i Hj Ey Ne) as [Old|[Pr Where]].
   - (* an old pair *)
